@@ -261,3 +261,19 @@ PROPS["C03"] = dict(
     rule="BFS; state = full player + sequencer snapshot; the 'api' leg uses null chips, the 'cores' leg the real emulator cores",
     assumptions=RT_ASSUME[:2] + ["CPU budget 60 s per call (ITIMER_PROF); a worker death is attributed to the announced call and confirmed by replaying that history alone"],
 )
+
+PROPS["C14"] = dict(
+    level="model_checking", engine="sched", title="instances are deterministic and isolated, also across threads",
+    technique="exhaustive enumeration of all call-granularity interleavings of two and three instance histories on one thread for all core pairs, and preemption-bounded exhaustive schedule exploration of two real threads under a serialising scheduler (iterative context bounding over API-call boundaries and library yield points, every execution in a fresh process); free-running ThreadSanitizer pass for unsynchronised accesses",
+    level_text="The observed instance's PCM and chip-register stream must equal its solo run bit for bit under every interleaving (70 per pair, 90 per triple) and every thread schedule within the completed preemption bound, for all 8 x 8 core pairs incl. both Nuked modes, differing sample rates and run-at-PCM-rate; solo outputs must be identical across runs and across the 'pattern' and 'zero' auto-variable initialisation builds; "
+               "the TSan leg runs the same bodies free-running on 2..8 threads and reports data races by racing object.",
+    level_note="scheduling points are API-call boundaries and the guarded yield points (no locks/atomics exist in the library to hook); memory orderings weaker than sequential consistency are left to TSan's happens-before analysis of the executed accesses; TSan's set of reported races is not exhaustive",
+    legs=[
+        Leg("iso", ["models/c14_isolation.cpp"], "fastnd", [], []),
+        Leg("iso_zero", ["models/c14_isolation.cpp"], "fastndz", [], []),
+        Leg("tsan", ["models/c14_tsan.cpp"], "tsan", [], [], timeout_quick=2400, timeout_thorough=7000),
+    ],
+    cross_check=[("iso", "iso_zero", "solo_digest")],
+    rule="one case per core pair/triple containing all its interleavings or all schedules within the preemption bound (elementary_evaluations counts them); distinct observed outcomes per pair are reported in the samples",
+    assumptions=["real emulator cores", "every interleaving/schedule runs in a freshly forked process; a failing schedule is replayed twice and must reproduce"],
+)
